@@ -4,6 +4,7 @@ package main
 
 import (
 	"bytes"
+	"crypto/sha256"
 	"encoding/hex"
 	"fmt"
 	"io"
@@ -223,6 +224,12 @@ func c10RespDiff(a, b c10Resp) string {
 
 func (r c10Resp) bag() string { return fmt.Sprintf("%d/%s", r.Status, c10TokenBag(r.Body)) }
 
+// exact: the response byte for byte.
+func (r c10Resp) exact() string {
+	h := sha256.Sum256([]byte(r.Body))
+	return fmt.Sprintf("E%d/%d/%s", r.Status, len(r.Body), hex.EncodeToString(h[:8]))
+}
+
 func c10Endpoint(path string) string {
 	switch path {
 	case "/":
@@ -264,11 +271,24 @@ func (e *c10WebEnv) check(pi int, u string, got c10Resp, sig, what string) {
 		e.c.Res.HarnessError = "no fresh-process reference for " + e.key(pi, u)
 		return
 	}
-	if set[got.bag()] {
+	// the fresh answers are recorded byte for byte (E…) and with order erased (token bags). If all fresh
+	// answers are byte-identical the page is deterministic and must be reproduced exactly; otherwise its
+	// order varies from run to run (C08) and the token bag decides.
+	exacts, bags := 0, 0
+	for k := range set {
+		if strings.HasPrefix(k, "E") {
+			exacts++
+		} else {
+			bags++
+		}
+	}
+	if set[got.exact()] || (exacts != 1 && set[got.bag()]) {
 		return
 	}
 	name := c10EndpointOf(u)
-	if len(set) > 1 {
+	if exacts == 1 && set[got.bag()] {
+		// same lines in another order than EVERY fresh answer: a stable order difference
+	} else if bags > 1 {
 		e.c.Res.Hit("C08-run-to-run-nondeterministic-output:web-" + name) // the fresh answers themselves disagree
 		return
 	}
@@ -383,7 +403,7 @@ func c10WebRefPhase(e *c10WebEnv) {
 			if i == 0 {
 				first = r
 			}
-			e.notes = append(e.notes, "ref\t"+e.key(pi, u)+"\t"+r.bag())
+			e.notes = append(e.notes, "ref\t"+e.key(pi, u)+"\t"+r.bag(), "ref\t"+e.key(pi, u)+"\t"+r.exact())
 		}
 		return first
 	}
@@ -491,7 +511,7 @@ func c10WebConcPhase(e *c10WebEnv) {
 		e.check(0, u, got[i], "C10/web/first-burst-dependent", fmt.Sprintf("served as one of the first %d simultaneous requests of a fresh process", len(burst)))
 	}
 	e.check(0, cs.Request, c10Get(h, cs.Request), "C10/web/first-burst-dependent", "served alone after the process started with a burst of simultaneous requests")
-	for round := 0; round < 2; round++ {
+	for round := 0; round < 2 && !(cs.Light && round > 0); round++ {
 		var wg sync.WaitGroup
 		rs := make([]c10Resp, 3)
 		for i := range rs {
@@ -590,6 +610,9 @@ func (w *c10StallWriter) Write(p []byte) (int, error) {
 
 func c10WebStallPhase(c *Ctx, cs *c10Case, urls []string, e *c10WebEnv) {
 	procsList := []int{1, 2, runtime.NumCPU()}
+	if cs.Light {
+		procsList = []int{2}
+	}
 	for _, procs := range procsList {
 		old := runtime.GOMAXPROCS(procs)
 		// the server is created AFTER GOMAXPROCS is set: whatever it sizes by the CPU count (worker pools,
